@@ -209,6 +209,10 @@ namespace bxdecay0 {
       }
     }
     fevent.close();
+    if (!fevent) {
+      // Some events could not be written: the completion marker must not be published
+      throw std::runtime_error("bxdecay0::driver::run: Cannot write the decay events file '" + event_filename + "'!");
+    }
     finfo << "@status=" << "0" << std::endl;
     finfo.close();
     decay0.reset();
